@@ -251,7 +251,7 @@ class FnSplicer:
 
     def _splice_loop(self, n, kwci, obrace, ls):
         rf = self.rf
-        bad = set(ls) - {'invariant', 'invariant_except_break', 'ensures', 'decreases', 'desugar', 'iter_name', 'end_proof'}
+        bad = set(ls) - {'invariant', 'invariant_except_break', 'ensures', 'decreases', 'desugar', 'iter_name', 'end_proof', 'scan_invariant', 'scan_ensures'}
         if bad:
             raise ExtractError(f'unknown loop spec keys {bad}')
         clauses = self._clauses(ls)
@@ -401,10 +401,16 @@ class FnSplicer:
                 if rf.ct(j).kind == 'lifetime':
                     raise ExtractError(f'{self._where()}: R10: labelled break/continue in the loop body')
             ls2 = dict(ls); ls2['invariant'] = [f'__s <= {E}@.len()'] + list(ls.get('invariant', []))
+            ls2['ensures'] = ['__fin'] + list(ls.get('ensures', []))
             ls2['decreases'] = f'(if __fin {{ 0int }} else {{ {E}@.len() - __s + 1 }})'
+            sinv = ''.join(f' {c},' for c in ls.get('scan_invariant', []))
+            sens = ('ensures' + ''.join(f' {c},' for c in ls.get('scan_ensures', [])) + '\n') if ls.get('scan_ensures') else ''
+            self.clauses += len(ls.get('scan_invariant', [])) + len(ls.get('scan_ensures', []))
+            for k in ('scan_invariant', 'scan_ensures'):
+                ls2.pop(k, None)
             clauses = self._clauses(ls2)
             before = rf.spaced(kwci, obrace + 1)
-            scan = (f'let mut __e: usize = __s; loop\ninvariant __s <= __e <= {E}@.len(),\ndecreases {E}@.len() - __e,\n'
+            scan = (f'let mut __e: usize = __s; loop\ninvariant __s <= __e <= {E}@.len(),{sinv}\n{sens}decreases {E}@.len() - __e,\n'
                     f'{{ if __e >= {E}.len() {{ break; }} let {C} = &{E}[__e]; if {PRED} {{ break; }} __e += 1; }}')
             adv = f'let {LABEL} = &{E}[__s..__e]; let ghost __ls = __s; if __e >= {E}.len() {{ __fin = true; }} else {{ __s = __e + 1; }}'
             new_head = f'{{ let mut __s: usize = 0; let mut __fin: bool = false; loop\n{clauses}{{ if __fin {{ break; }} {scan} {adv}'
